@@ -50,6 +50,7 @@ func (it *Interp) Reset() {
 		panic(err)
 	}
 	stat.ResetResourceNodeMap()
+	it.clk.Ns = 0 // `clock` only moves forward within a case
 	it.rules = nil
 	it.loaded = false
 	it.cur = nil
@@ -88,7 +89,7 @@ func typeOpts(tok string, n int) [][]sentinel.EntryOption {
 
 func parseRule(s string) *flow.Rule {
 	f := strings.Split(s, ",")
-	if len(f) != 4 {
+	if len(f) != 4 && len(f) != 5 {
 		panic("bad rule " + s)
 	}
 	thr, ok := vh.ParseFBits(f[1])
@@ -106,6 +107,13 @@ func parseRule(s string) *flow.Rule {
 		r.RelationStrategy = flow.AssociatedResource
 		r.RefResource = resName(f[3])
 	}
+	if len(f) == 5 { // q<MaxQueueingTimeMs>: a throttling rule
+		if !strings.HasPrefix(f[4], "q") {
+			panic("bad rule " + s)
+		}
+		r.ControlBehavior = flow.Throttling
+		r.MaxQueueingTimeMs = uint32(vh.U(f[4][1:]))
+	}
 	return r
 }
 
@@ -119,8 +127,11 @@ func (it *Interp) decision(e *base.SentinelEntry, b *base.BlockError) string {
 	if b.BlockType() != base.BlockTypeFlow {
 		return "block " + b.BlockType().String()
 	}
+	if b.TriggeredRule() == nil {
+		return "block flow -"
+	}
 	idx := -1
-	for i, r := range it.rules {
+	for i, r := range it.rules { // every rule object ever loaded in this case, in load order
 		if base.SentinelRule(r) == b.TriggeredRule() {
 			idx = i
 		}
@@ -128,21 +139,32 @@ func (it *Interp) decision(e *base.SentinelEntry, b *base.BlockError) string {
 	return fmt.Sprintf("block flow %d", idx)
 }
 
+// withSleep appends the time slept inside the flow slot (virtual clock advance), if any: `pass +<ns>`.
+func (it *Interp) withSleep(r string, t0 uint64) string {
+	if it.clk.Ns > t0 {
+		return fmt.Sprintf("%s +%d", r, it.clk.Ns-t0)
+	}
+	return r
+}
+
 func (it *Interp) Step(t []string, op string) string {
 	switch t[0] {
 	case "clock":
-		it.clk.SetMs(vh.U(t[1]))
+		// the clock never goes back behind what the sleeps of the flow slot already made of it
+		if ms := vh.U(t[1]); ms*1e6 > it.clk.Ns {
+			it.clk.SetMs(ms)
+		}
 		return ""
 	case "load":
 		n := int(vh.U(t[1]))
-		if it.loaded || len(t) != 2+n {
+		if len(t) != 2+n {
 			panic("bad load")
 		}
 		rules := make([]*flow.Rule, 0, n)
 		for _, s := range t[2:] {
 			rules = append(rules, parseRule(s))
 		}
-		it.rules = rules
+		it.rules = append(it.rules, rules...)
 		it.loaded = true
 		if _, err := flow.LoadRules(rules); err != nil {
 			return "err"
@@ -154,15 +176,17 @@ func (it *Interp) Step(t []string, op string) string {
 			tok = t[3]
 		}
 		opts := append(typeOpts(tok, 1)[0], sentinel.WithBatchCount(uint32(vh.U(t[2]))))
+		t0 := it.clk.Ns
 		e, b := sentinel.Entry(resName(t[1]), opts...)
-		return it.decision(e, b)
+		return it.withSleep(it.decision(e, b), t0)
 	case "par":
 		tok := ""
 		if len(t) > 4 {
 			tok = t[4]
 		}
 		bs := strings.Split(t[2], ",")
-		return it.par(resName(t[1]), bs, strings.Split(t[3], ","), typeOpts(tok, len(bs)))
+		t0 := it.clk.Ns
+		return it.withSleep(it.par(resName(t[1]), bs, strings.Split(t[3], ","), typeOpts(tok, len(bs))), t0)
 	case "sum":
 		n := stat.GetResourceNode(resName(t[1]))
 		if n == nil {
